@@ -107,7 +107,7 @@ impl GV {
     }
 }
 
-pub const STR_POOL: &[&str] = &["", "a", "b", "ab", "x y", "{}", "{", "}}", "héllo", "日本", "a\"q", "tab\t", "nl\n", "\\", "\u{7f}", "z{}z", ".*", "a|b"];
+pub const STR_POOL: &[&str] = &["", "a", "b", "ab", "x y", "{}", "{", "}}", "héllo", "日本", "a\"q", "tab\t", "nl\n", "\\", "\u{7f}", "z{}z", ".*", "a|b", "a\u{2028}b", "a\u{2029}b", "\u{2029}"];
 pub const INT_POOL: &[u32] = &[0, 1, 2, 7, 42, 255, 65535, 2147483647, 2147483648, 4294967294, 4294967295];
 
 pub struct ValGen { pub n_syn: usize, pub n_graph: u32, pub allow_syn_in_set: bool }
